@@ -38,3 +38,63 @@ theorem mem_csrRow_col_lt {A : Csr α} (h : A.WF) {i : Nat} (hi : i < A.rows) {k
   exact h.colLt p (by omega)
 
 end FeatModel.LA.MatAlg
+
+/-! ### sums over the stored entries of a row are sums over ALL columns of the dense meaning -/
+namespace FeatModel.LA.MatAlg
+open FeatModel.LA
+variable {α : Type} [CommRing α]
+
+theorem sum_map_range' (g : Nat → α) : ∀ (n s : Nat),
+    ((List.range' s n).map g).sum = ∑ k ∈ range n, g (s + k)
+  | 0, s => by simp
+  | n + 1, s => by
+    rw [List.range'_succ, List.map_cons, List.sum_cons, sum_map_range' g n (s + 1), Finset.sum_range_succ']
+    have : ∀ k, s + 1 + k = s + (k + 1) := fun k => by omega
+    simp only [this, Nat.add_zero]
+    ring
+
+theorem sum_flatMap_map {ι κ : Type} (l : List ι) (f : ι → List κ) (g : κ → α) :
+    ((l.flatMap f).map g).sum = (l.map fun x => ((f x).map g).sum).sum := by
+  induction l with
+  | nil => simp
+  | cons x t ih => simp only [List.flatMap_cons, List.map_append, List.sum_append, List.map_cons, List.sum_cons, ih]
+
+/-- `Σ_{stored (k, d) in row i} c·d·g(k) = c · Σ_{k < cols} ⟦A⟧_ik · g(k)` -/
+theorem csrRow_weighted_sum {A : Csr α} (h : A.WF) {i : Nat} (hi : i < A.rows) (c : α) (g : Nat → α) :
+    ((csrRow A i).map fun kd => c * kd.2 * g kd.1).sum = c * ∑ k ∈ range A.cols, A.entry i k * g k := by
+  have h1 : ((csrRow A i).map fun kd => c * kd.2 * g kd.1) = (csrRow A i).map fun kd => c * (kd.2 * g kd.1) :=
+    List.map_congr_left (fun kd _ => mul_assoc _ _ _)
+  rw [h1, List.sum_map_mul_left, ← Csr.sum_row_eq h g hi]
+  congr 1
+  unfold csrRow
+  rw [List.map_map, sum_map_range', Finset.sum_Ico_eq_sum_range]
+  rfl
+
+theorem csrAddMatMat_ok_dims {allow : Bool} {alpha : α} {X D B : Csr α} {R : List (Row α)}
+    (h : csrAddMatMat allow alpha X D B = .ok R) : X.rows = D.rows ∧ D.cols = B.rows ∧ B.cols = X.cols := by
+  unfold csrAddMatMat at h
+  split at h
+  · simp at h
+  · next hc => simp only [Bool.or_eq_true, bne_iff_ne, not_or, ne_eq, not_not] at hc; exact ⟨hc.1.1, hc.1.2, hc.2⟩
+
+theorem csrAddDoubleMatMat_ok_dims {allow : Bool} {alpha : α} {X D A B : Csr α} {R : List (Row α)}
+    (h : csrAddDoubleMatMat allow alpha X D A B = .ok R) :
+    X.rows = D.rows ∧ D.cols = A.rows ∧ A.cols = B.rows ∧ B.cols = X.cols := by
+  unfold csrAddDoubleMatMat at h
+  split at h
+  · simp at h
+  · next hc =>
+    simp only [Bool.or_eq_true, bne_iff_ne, not_or, ne_eq, not_not] at hc
+    exact ⟨hc.1.1.1, hc.1.1.2, hc.1.2, hc.2⟩
+
+theorem csrAddDoubleDiag_ok_dims {allow : Bool} {alpha : α} {X D : Csr α} {a : Array α} {B : Csr α} {R : List (Row α)}
+    (h : csrAddDoubleDiag allow alpha X D a B = .ok R) :
+    X.rows = D.rows ∧ D.cols = a.size ∧ a.size = B.rows ∧ B.cols = X.cols := by
+  unfold csrAddDoubleDiag at h
+  split at h
+  · simp at h
+  · next hc =>
+    simp only [Bool.or_eq_true, bne_iff_ne, not_or, ne_eq, not_not] at hc
+    exact ⟨hc.1.1.1, hc.1.1.2, hc.1.2, hc.2⟩
+
+end FeatModel.LA.MatAlg
